@@ -90,7 +90,10 @@ def param_flow(P, fn, param, allowed, ctx, rule, what, allow_store=False):
 def empty_string(e):
     e = unwrap_cast(e)
     cs = [c for c in consts_in(e) if isinstance(c[2], str)]
-    return e[0] == 'call' and e[1].endswith('to_string') and any(c[2] in ('""', 'const ""') for c in cs)
+    if e[0] == 'call' and re.search(r'^std::string::String::new$|^<std::string::String as std::default::Default>::default$', e[1]):
+        return True
+    return e[0] == 'call' and re.search(r'to_string$|to_owned$|String as std::convert::From<&str>>::from$', e[1]) is not None \
+        and any(c[2] in ('""', 'const ""') for c in cs)
 
 
 def run(ctx):
@@ -270,7 +273,7 @@ def run(ctx):
         seen.add(flags[0])
         a = [unwrap_cast(resolve(st, ct[0][2][i])) for i in (0, 1, 2)]
         if flags[0]:
-            good = all(x[0] == 'call' and x[1] == 'std::vec::Vec::<T>::new' for x in a) and len(flags) == 3
+            good = all(x[0] == 'call' and x[1] == 'std::vec::Vec::<T>::new' for x in a)
             ctx.check(good, 'R17.2', 'cssp:emptied', 'flag set: TSCredentials carries three empty values', where(cs, ct[0][1].block),
                       'cssp_connect builds TSCredentials from %s although the empty-credentials flag is set' % [show(x)[:40] for x in a])
         else:
